@@ -18,148 +18,6 @@ import (
 // ---------------------------------------------------------------------------
 // R4 / R5 inclusive ranges
 
-// inclusive checks that every node accepted by `accept` is reached only with
-// lo <= x and x <= hi established, x/lo/hi being identifiers.
-func inclusive(c *core.Ctx, rule, key string, g *cfgq.Graph, body ast.Node, x, lo, hi ast.Expr, accept func(ast.Node) bool) {
-	info := g.Info
-	b := pat.Binds{"_x": x, "_lo": lo, "_hi": hi}
-	type side struct {
-		name           string
-		bound          ast.Expr
-		okT, okF       *pat.Pattern
-		wrongT, wrongF *pat.Pattern
-	}
-	sides := []side{
-		{"lower", lo, pat.Expr("_x >= _lo"), pat.Expr("_x < _lo"), pat.Expr("_x > _lo"), pat.Expr("_x <= _lo")},
-		{"upper", hi, pat.Expr("_x <= _hi"), pat.Expr("_x > _hi"), pat.Expr("_x < _hi"), pat.Expr("_x >= _hi")},
-	}
-	pts := g.Points(accept)
-	if len(pts) == 0 {
-		c.Undecidedf(rule, key, body.Pos(), "no accepting exit found")
-		return
-	}
-	for _, sd := range sides {
-		sd := sd
-		direct := func(f cfgq.Fact, bd pat.Binds) bool {
-			return f.Val && sd.okT.Match(info, f.Expr, bd) != nil || !f.Val && sd.okF.Match(info, f.Expr, bd) != nil
-		}
-		// helper: inRange(x, lo, hi) with `func inRange(s, l, r int) bool { return l <= s && s <= r }`
-		// returns the helper's condition and the bindings in the helper's terms
-		helper := func(e ast.Expr) (ast.Expr, pat.Binds) {
-			call, ok := ast.Unparen(e).(*ast.CallExpr)
-			hfn := core.CalleeFunc(info, orCallExpr(call))
-			if !ok || hfn == nil {
-				return nil, nil
-			}
-			hf := c.FnOf(hfn)
-			if hf == nil || hf.Decl.Body == nil || len(hf.Decl.Body.List) != 1 || hf.Pkg.TypesInfo != info {
-				return nil, nil
-			}
-			ret, isRet := hf.Decl.Body.List[0].(*ast.ReturnStmt)
-			var hps []*ast.Ident
-			for _, fl := range hf.Decl.Type.Params.List {
-				hps = append(hps, fl.Names...)
-			}
-			if !isRet || len(ret.Results) != 1 || len(hps) != len(call.Args) {
-				return nil, nil
-			}
-			b2 := pat.Binds{}
-			for i, a := range call.Args {
-				for name, want := range b {
-					if pat.Same(info, strip(info, a), want) {
-						b2[name] = hps[i]
-					}
-				}
-			}
-			if len(b2) != len(b) {
-				return nil, nil
-			}
-			return ret.Results[0], b2
-		}
-		holdsWhen := func(e ast.Expr, val bool) bool { // e == val establishes this bound
-			if direct(cfgq.Fact{Expr: e, Val: val}, b) {
-				return true
-			}
-			if cond, b2 := helper(e); cond != nil {
-				for _, at := range cfgq.Facts(cond, val) {
-					if direct(at, b2) {
-						return true
-					}
-				}
-			}
-			return false
-		}
-		fact := func(f cfgq.Fact) bool { return holdsWhen(f.Expr, f.Val) }
-		inverted := func(f cfgq.Fact) bool { return holdsWhen(f.Expr, !f.Val) } // accepted exactly when the bound test failed
-		ok := true
-		var wit []string
-		for _, p := range pts {
-			// `return x >= lo && x <= hi`
-			if r, isRet := p.Node().(*ast.ReturnStmt); isRet && len(r.Results) > 0 {
-				direct := false
-				for _, f := range cfgq.Facts(r.Results[0], true) {
-					if fact(f) {
-						direct = true
-					}
-				}
-				if direct {
-					continue
-				}
-			}
-			if o, w := onlyVia(g, p, fact); !o {
-				ok, wit = false, w
-			}
-		}
-		k := key + "/" + sd.name
-		if ok {
-			c.Okf(rule, k, body.Pos(), "candidates are accepted only with the %s bound tested inclusively", sd.name)
-			continue
-		}
-		allInv := true
-		for _, p := range pts {
-			if o, _ := onlyVia(g, p, inverted); !o {
-				allInv = false
-			}
-		}
-		if allInv {
-			c.Check(rule, k, body.Pos(), false, fmt.Sprintf("a candidate is accepted exactly when the %s bound test FAILED: the key chosen hashes outside the slot range", sd.name), wit...)
-			continue
-		}
-		// exactly one comparison with this bound (here or in a one-line predicate
-		// helper applied to x and the bounds), and it is the strict one => definite
-		var cmps []*ast.BinaryExpr
-		cb := b
-		collect := func(root ast.Node, bd pat.Binds) {
-			ast.Inspect(root, func(n ast.Node) bool {
-				if be, ok := n.(*ast.BinaryExpr); ok && pat.Expr("_x + _b").Match(info, &ast.BinaryExpr{X: be.X, Op: token.ADD, Y: be.Y}, pat.Binds{"_x": bd["_x"], "_b": bd[map[string]string{"lower": "_lo", "upper": "_hi"}[sd.name]]}) != nil {
-					cmps = append(cmps, be)
-					cb = bd
-				}
-				return true
-			})
-		}
-		collect(body, b)
-		ast.Inspect(body, func(n ast.Node) bool {
-			if call, ok := n.(*ast.CallExpr); ok {
-				if cond, b2 := helper(call); cond != nil {
-					collect(cond, b2)
-				}
-			}
-			return true
-		})
-		if len(cmps) == 1 && (sd.wrongT.Match(info, cmps[0], cb) != nil || sd.wrongF.Match(info, cmps[0], cb) != nil) {
-			c.Check(rule, k, cmps[0].Pos(), false, fmt.Sprintf("the %s slot bound is tested exclusively (%s): a range [l,r] is inclusive, so a shard owning the single slot l (or a key hashing exactly to the boundary) is never matched / a key outside is accepted", sd.name, c.Src(cmps[0])), wit...)
-		} else {
-			c.Undecidedf(rule, k, body.Pos(), "cannot establish that the %s bound is tested as an inclusive bound", sd.name)
-		}
-	}
-}
-
-func isTrue(info *types.Info, e ast.Expr) bool {
-	tv, ok := info.Types[e]
-	return ok && tv.Value != nil && tv.Value.String() == "true"
-}
-
 func checkpointKey(c *core.Ctx) {
 	chose := c.Func(pkgCommon, "", "ChoseSlotInRange")
 	dfs := c.Func(pkgCommon, "", "pickSuffixDfs")
@@ -208,6 +66,7 @@ func checkpointKey(c *core.Ctx) {
 	}
 	var lit *ast.FuncLit
 	var dfsCall *ast.CallExpr
+	cds := &defs{info: info, body: chose.Decl.Body, g: cfgq.Of(c.Program, chose)}
 	for _, call := range core.Calls(chose.Decl.Body, info, func(_ *ast.CallExpr, o types.Object) bool { return o == dfs.Obj }) {
 		dfsCall = call
 		if judgeIdx >= 0 && len(call.Args) == dsig.Params().Len() {
@@ -218,10 +77,14 @@ func checkpointKey(c *core.Ctx) {
 				}
 			}
 			lit, _ = e.(*ast.FuncLit)
+			if lit == nil { // declared first, assigned once before the call
+				lit, _ = ast.Unparen(cds.chase(call.Args[judgeIdx])).(*ast.FuncLit)
+			}
 		}
 	}
 	// bounds handed down as plain integers: which parameters of the search are left and right?
-	var dLeft, dRight *ast.Ident
+	var dLeft, dRight ast.Expr
+	outIdx, outField := -1, (*types.Var)(nil) // a pointer out-parameter of the search and the string field of it that ChoseSlotInRange returns
 	if dfsCall != nil && len(dfsCall.Args) == len(dparams) {
 		for i, a := range dfsCall.Args {
 			switch objOf(info, a) {
@@ -229,6 +92,29 @@ func checkpointKey(c *core.Ctx) {
 				dLeft = dparams[i]
 			case info.Defs[params[2]]:
 				dRight = dparams[i]
+			}
+			// the two bounds carried in a small struct value: they are <param>.<field> in the search
+			if fl, fr := boundFields(info, chose.Decl.Body, a, info.Defs[params[1]], info.Defs[params[2]]); fl != nil && fr != nil && judgeIdx < 0 {
+				po := dfs.Pkg.TypesInfo.Defs[dparams[i]]
+				if rhs, other := defsOf(dfs.Pkg.TypesInfo, dfs.Decl.Body, po); len(rhs) == 0 && other == 0 {
+					l, r := fieldUse(dfs.Pkg.TypesInfo, dfs.Decl.Body, po, fl), fieldUse(dfs.Pkg.TypesInfo, dfs.Decl.Body, po, fr)
+					if l != nil && r != nil {
+						dLeft, dRight = l, r
+					}
+				}
+			}
+			// &local handed down as the place for the result
+			if u, ok := ast.Unparen(a).(*ast.UnaryExpr); ok && u.Op == token.AND && objOf(info, u.X) != nil {
+				core.Inspect(chose.Decl.Body, func(n ast.Node) bool {
+					if r, ok := n.(*ast.ReturnStmt); ok && len(r.Results) == 1 {
+						if sel, ok := ast.Unparen(r.Results[0]).(*ast.SelectorExpr); ok && objOf(info, sel.X) == objOf(info, u.X) {
+							if b, isB := info.TypeOf(sel).Underlying().(*types.Basic); isB && b.Kind() == types.String {
+								outIdx, outField = i, core.FieldOf(info, sel)
+							}
+						}
+					}
+					return true
+				})
 			}
 		}
 	}
@@ -295,13 +181,33 @@ func checkpointKey(c *core.Ctx) {
 		if r, ok := n.(*ast.ReturnStmt); ok && len(r.Results) == 1 && strRes >= 0 {
 			ast.Inspect(chose.Decl.Body, func(m ast.Node) bool {
 				if as, ok := m.(*ast.AssignStmt); ok && len(as.Rhs) == 1 && ast.Unparen(as.Rhs[0]) == ast.Expr(dfsCall) && len(as.Lhs) == dsig.Results().Len() {
-					retOK = pat.Same(info, as.Lhs[strRes], r.Results[0])
+					retOK = pat.Same(info, as.Lhs[strRes], r.Results[0]) || cds.sameValue(as.Lhs[strRes], r.Results[0])
 				}
 				return true
 			})
 		}
 		return true
 	})
+	if !retOK && outIdx >= 0 && outField != nil && strRes < 0 {
+		// the result comes back through the out-parameter: every return of ChoseSlotInRange
+		// hands back that field, which nothing but the search writes
+		retOK = true
+		core.Inspect(chose.Decl.Body, func(n ast.Node) bool {
+			switch x := n.(type) {
+			case *ast.ReturnStmt:
+				if len(x.Results) != 1 || core.FieldOf(info, x.Results[0]) != outField {
+					retOK = false
+				}
+			case *ast.AssignStmt:
+				for _, l := range x.Lhs {
+					if core.FieldOf(info, l) == outField {
+						retOK = false
+					}
+				}
+			}
+			return true
+		})
+	}
 	if okPrefix && retOK {
 		c.Okf("R4.prefix", "ChoseSlotInRange/seed", chose.Decl.Pos(), "the search is seeded with <prefix>- and its result is returned")
 	} else {
@@ -488,28 +394,44 @@ func checkpointKey(c *core.Ctx) {
 			}
 		}
 	}
-	// an accepting return hands back string(<candidate bytes>)
-	candOf := func(r *ast.ReturnStmt) ast.Expr {
-		for _, res := range r.Results {
-			if o := objOf(dinfo, res); o != nil { // candidate := string(prefix); return true, candidate
-				if rhs, other := defsOf(dinfo, dfs.Decl.Body, o); len(rhs) == 1 && other == 0 && rhs[0] != nil {
-					res = rhs[0]
-				}
+	// an accepting exit hands back string(<candidate bytes>): as a result of a
+	// return statement, or stored into the out-parameter's result field
+	asString := func(res ast.Expr) ast.Expr {
+		if o := objOf(dinfo, res); o != nil { // candidate := string(prefix); return true, candidate
+			if rhs, other := defsOf(dinfo, dfs.Decl.Body, o); len(rhs) == 1 && other == 0 && rhs[0] != nil {
+				res = rhs[0]
 			}
-			if call, ok := ast.Unparen(res).(*ast.CallExpr); ok && len(call.Args) == 1 {
-				if tv, isT := dinfo.Types[call.Fun]; isT && tv.IsType() {
-					if b, ok := tv.Type.Underlying().(*types.Basic); ok && b.Kind() == types.String {
-						return call.Args[0]
-					}
+		}
+		if call, ok := ast.Unparen(res).(*ast.CallExpr); ok && len(call.Args) == 1 {
+			if tv, isT := dinfo.Types[call.Fun]; isT && tv.IsType() {
+				if b, ok := tv.Type.Underlying().(*types.Basic); ok && b.Kind() == types.String {
+					return call.Args[0]
 				}
 			}
 		}
 		return nil
 	}
-	accepting := func(n ast.Node) bool {
-		r, ok := n.(*ast.ReturnStmt)
-		return ok && candOf(r) != nil
+	candOf := func(n ast.Node) ast.Expr {
+		switch x := n.(type) {
+		case *ast.ReturnStmt:
+			for _, res := range x.Results {
+				if cd := asString(res); cd != nil {
+					return cd
+				}
+			}
+		case *ast.AssignStmt:
+			if outIdx < 0 || outField == nil || len(x.Lhs) != len(x.Rhs) {
+				return nil
+			}
+			for i, l := range x.Lhs {
+				if sel, ok := ast.Unparen(l).(*ast.SelectorExpr); ok && core.FieldOf(dinfo, sel) == outField && objOf(dinfo, sel.X) == dinfo.Defs[dparams[outIdx]] {
+					return asString(x.Rhs[i])
+				}
+			}
+		}
+		return nil
 	}
+	accepting := func(n ast.Node) bool { return candOf(n) != nil }
 	if judgeIdx < 0 && dLeft != nil && dRight != nil {
 		// no predicate value: the bounds are compared in the search function itself
 		// (directly or through a one-line predicate helper)
@@ -529,7 +451,7 @@ func checkpointKey(c *core.Ctx) {
 			c.Undecidedf("R4.range", "pickSuffixDfs/slot-of-candidate", dfs.Decl.Pos(), "cannot find `slot, err := redis.GetSlot(candidate)` and a return of string(candidate)")
 		} else {
 			for _, p := range pts {
-				r := p.Node().(*ast.ReturnStmt)
+				r := p.Node()
 				ret, cand := strip(dinfo, candOf(r)), strip(dinfo, slotCand)
 				switch {
 				case pat.Same(dinfo, ret, cand):
@@ -550,7 +472,7 @@ func checkpointKey(c *core.Ctx) {
 		n := 0
 		for _, p := range g.Points(accepting) {
 			n++
-			r := p.Node().(*ast.ReturnStmt)
+			r := p.Node()
 			ret := strip(dinfo, candOf(r))
 			same, differs := false, false
 			var cand ast.Expr
@@ -603,6 +525,25 @@ func checkpointKey(c *core.Ctx) {
 		if call, ok := ast.Unparen(e).(*ast.CallExpr); ok {
 			return core.IsFunc(core.CalleeFunc(finfo, call), "strings", "", "HasPrefix") && len(call.Args) == 2 &&
 				objOf(finfo, call.Args[0]) == key && core.ObjOf(finfo, call.Args[1]) == cpk
+		}
+		// strings.Index(key, CheckpointKey) == 0: found at the very start
+		if be, ok := ast.Unparen(e).(*ast.BinaryExpr); ok && be.Op == token.EQL {
+			for _, pr := range [][2]ast.Expr{{be.X, be.Y}, {be.Y, be.X}} {
+				call, isCall := ast.Unparen(pr[0]).(*ast.CallExpr)
+				if z, isC := core.IntConst(finfo, pr[1]); isCall && isC && z == 0 && core.IsFunc(core.CalleeFunc(finfo, call), "strings", "", "Index") && len(call.Args) == 2 &&
+					objOf(finfo, call.Args[0]) == key && core.ObjOf(finfo, call.Args[1]) == cpk {
+					return true
+				}
+			}
+		}
+		// strings.TrimPrefix(key, CheckpointKey) != key: something was cut off, i.e. the (non-empty) prefix is there
+		if be, ok := ast.Unparen(e).(*ast.BinaryExpr); ok && be.Op == token.NEQ && cpk.Val().ExactString() != `""` {
+			for _, pr := range [][2]ast.Expr{{be.X, be.Y}, {be.Y, be.X}} {
+				if call, isCall := ast.Unparen(pr[0]).(*ast.CallExpr); isCall && core.IsFunc(core.CalleeFunc(finfo, call), "strings", "", "TrimPrefix") && len(call.Args) == 2 &&
+					objOf(finfo, call.Args[0]) == key && core.ObjOf(finfo, call.Args[1]) == cpk && objOf(finfo, pr[1]) == key {
+					return true
+				}
+			}
 		}
 		// key[:len(CheckpointKey)] == CheckpointKey (the length test that goes with it is a separate conjunct)
 		if be, ok := ast.Unparen(e).(*ast.BinaryExpr); ok && be.Op == token.EQL {
